@@ -315,6 +315,9 @@ def equal_size_simulation_case(ctx, rng, idx, case=None):
         n = int(rng.choice([1, 2, 3, 6]))
         total = r * sum(per)
         loads = {s + 1: [float(np.round(rng.uniform(0.0, 0.9) * total / k, 1)) for _ in range(n)] for s in range(k)}
+        if k >= 2 and rng.random() < 0.4:          # switchboards that feed no consumer (the first one among them half of the time)
+            for s in rng.choice(range(1, k + 1), size=int(rng.integers(1, k)), replace=False):
+                del loads[int(s)]
         case = {"kind": "equal_size_simulation", "per_swb": per, "rated": r, "fraction": f, "n": n, "loads": {str(s): v for s, v in loads.items()}}
     return exec_equal_size_simulation_case(ctx, case)
 
@@ -331,12 +334,14 @@ def exec_equal_size_simulation_case(ctx, case):
         for g in range(per[s - 1]):
             spec["electric"].append({"kind": "genset", "name": f"g{s}_{g}", "swb": s, "rated": r, "generator": {"rated": r, "speed": 1000.0, "curve": [0.95]},
                                      "engine": {"rated": 1.1 * r, "speed": 1000.0, "bsfc": [200.0]}})
-        spec["electric"].append({"kind": "other_load", "name": f"l{s}", "swb": s, "rated": r * sum(per), "curve": [1.0]})
+        if str(s) in case["loads"]:
+            spec["electric"].append({"kind": "other_load", "name": f"l{s}", "swb": s, "rated": r * sum(per), "curve": [1.0]})
+    ctx.count("equal_size_switchboards_without_consumer", k - len(case["loads"]))
     ctx.count("equal_size_simulation", f"{k} switchboards, {n} samples" if n < k - 1 else "series at least as long as the breaker list")
     try:
         plant = plants.Plant(spec)
-        for s in range(1, k + 1):
-            plant.by_name[f"l{s}"].set_power_input_from_output(np.array(case["loads"][str(s)], dtype=float))
+        for s in case["loads"]:
+            plant.by_name[f"l{s}"].set_power_input_from_output(np.array(case["loads"][s], dtype=float))
         for c in spec["electric"]:
             if c["kind"] == "genset":           # this interface decides who runs; how the running sets share the load is the caller's
                 plant.by_name[c["name"]].load_sharing_mode = np.zeros(n)
@@ -346,7 +351,7 @@ def exec_equal_size_simulation_case(ctx, case):
     except Exception as e:
         ctx.fail("predicate", "equal-size-simulation-raises-" + core.error_class(e), f"{type(e).__name__}: {e}", where)
         return
-    demand = sum(np.array(case["loads"][str(s)], dtype=float) for s in range(1, k + 1))
+    demand = sum(np.array(v, dtype=float) for v in case["loads"].values())
     gens = [c for c in spec["electric"] if c["kind"] == "genset"]
     for t in range(n):
         running = [c for c in gens if np.broadcast_to(plant.by_name[c["name"]].status, (n,))[t]]
